@@ -7,3 +7,4 @@ cp /repo/go.sum . 2>/dev/null || true
 go build -tags verif -o ../build/xh ./cmd/xh
 go build -o ../build/gentables ./cmd/gentables
 go build -o ../build/geneffects ./cmd/geneffects
+go build -o ../build/gencallgraph ./cmd/gencallgraph
